@@ -778,6 +778,10 @@ class EvalMixin:
             b = self.clamp(hi, obj.len, obj.len)
             n = z3.If(b - a < 0, z3.IntVal(0), b - a)
             return SBytes(obj.arr, obj.off + a, n)
+        if isinstance(obj, SRef) and not self.spec:
+            decl = self.world.classes.get(obj.shape.cls)
+            if decl is not None and '__getslice__' in decl.methods:
+                return decl.methods['__getslice__'](self, [obj, lo, hi], {})      # declared (assumed) slicing
         raise Unsupported('slice of %r' % (obj,))
 
     # ------------------------------------------------------------ lambda etc
